@@ -9,6 +9,7 @@
  *   h_rt_parse_ser   serialize_der(parse_der(b)) = b whenever b is accepted with both integers in range */
 #include "assumed.h"
 #include "spec_der.h"
+#include "c03_small_tables.h"
 #include "src/secp256k1.c"
 #include "post.h"
 
@@ -34,7 +35,7 @@ void h_read_len(void) {
     if (ret) __CPROVER_assert(p == buf + L.hdr, "C03 der.read_len: the read pointer advances by exactly the length octets");
     if (L.ok && L.val <= avail - L.hdr) __CPROVER_assert(ret == 1, "C03 der.read_len: well-formed length octets whose content fits are accepted");
     if (ret && L.hdr > 1) __CPROVER_assert(len <= (size_t)(end - p), "C03 der.read_len: a long-form length never exceeds the remaining bytes");
-    if (ret && L.hdr == 9) REACH("read_len accepts an 8-octet long form");
+    if (ret && L.hdr == 3) REACH("read_len accepts a 2-octet long form");
     if (ret && L.hdr == 1) REACH("read_len accepts a short form");
     if (!ret && avail > 3) REACH("read_len rejects");
 }
